@@ -13,6 +13,9 @@ import (
 
 // ---------------------------------------------------------------- execution wrapper
 
+// hostZones: zones the simulated host may be configured with (time.Local).
+var hostZones = []*time.Location{time.UTC, time.FixedZone("PST", -8*3600), time.UTC, time.FixedZone("CEST", 2*3600), time.FixedZone("NPT", 5*3600+45*60), time.UTC}
+
 type harnessPanic struct {
 	v     any
 	stack string
@@ -28,6 +31,8 @@ func runPlan(t *testing.T, prof *Profile, p *Plan) (res *Result) {
 			}
 		}()
 		resetGlobals()
+		// the host's time zone is part of the environment the code must not depend on: a function of the plan
+		time.Local = hostZones[(p.Seed+p.Run)%uint64(len(hostZones))]
 		res = prof.Exec(t, p)
 	}
 	if prof.NoBubble {
@@ -45,6 +50,7 @@ func runPlan(t *testing.T, prof *Profile, p *Plan) (res *Result) {
 		}()
 	}
 	resetGlobals()
+	time.Local = time.UTC
 	if hp != nil {
 		fmt.Fprintf(os.Stderr, "HARNESS-PANIC property=%s run=%d: %v\n%s\nplan=%s\n", p.Property, p.Run, hp.v, hp.stack, mustJSON(p))
 		os.Exit(2)
